@@ -846,6 +846,8 @@ def convert_to(I, st, v, ty, ctx):
         return [(st, VOpaque("into"))]
     if t["k"] == "int" and isinstance(v, VInt):
         return [(st, I.cast(st, "IntToInt", v, ty))]
+    if t["k"] == "float" and isinstance(v, VInt):
+        return [(st, I.cast(st, "IntToFloat", v, ty))]      # f32::from(u16) is the lossless `as f32`
     txt = t["text"]
     if isinstance(v, VSlice) and ("Vec<u8" in txt):
         return [(st, VSeq(("slice", v.buf, v.start, v.len), vec_cap(I, t)))]
@@ -923,6 +925,13 @@ def h_opt_map(I, st, callee, target, args, ctx):
         if v.variant == 0:
             return [(st, NONE)]
         return [(s2, mk_some(r)) for s2, r in I.apply_callable(st, f, [v.fields[0]], ctx)]
+    if isinstance(v, VApp):
+        forced = force_app(I, st, v)
+        if not (len(forced) == 1 and forced[0][1] is v):
+            out = []
+            for s2, val in forced:
+                out += h_opt_map(I, s2, callee, target, [val, f], ctx)
+            return out
     if isinstance(v, (VApp, VOpaque)):
         fv = deref(I, st, f)
         ups = []
@@ -942,6 +951,20 @@ def h_is_some(I, st, callee, target, args, ctx):
         c = ("in", v.disc, IntSet.of(1))
         return [(st, VBool(negate(c) if neg else c))]
     raise Unanalysable("is_some on %r" % (v,))
+
+
+def force_app(I, st, v):
+    """a leaf application consumed by an Option/Result adaptor: leaves are pure, so interpret the
+    leaf's body on the actual arguments instead of keeping the application opaque -> [(st, value)]"""
+    from .interp import VApp as _VApp
+    if isinstance(v, _VApp) and not v.proj and v.defn in I.f.bodies:
+        b = I.f.bodies[v.defn]
+        if b["kind"] != "Closure":
+            try:
+                return I.exec_fn(st, b, list(v.args))
+            except Unanalysable:
+                return [(st, v)]
+    return [(st, v)]
 
 
 def panic_obligation(I, st, ctx, kind, ok, detail=None):
@@ -2536,3 +2559,106 @@ def p_map_parser(I, st, pv, inp, ctx):
             else:
                 out.append((s3, r2))
     return out
+
+
+# ---- further core items met in refactorings ------------------------------------------------------
+
+@ext("core::convert::identity")
+def h_identity(I, st, callee, target, args, ctx):
+    return [(st, args[0])]
+
+
+@ext("core:[T]::split_first", "core:[T]::split_last", "core:[T]::last")
+def h_split_first(I, st, callee, target, args, ctx):
+    v = deref(I, st, args[0])
+    if not isinstance(v, VSlice):
+        raise Unanalysable("split_first on %r" % (v,))
+    name = target["def"].rsplit("::", 1)[1]
+    nonempty = decide_le0(st, -v.len + 1, name)
+    if not nonempty:
+        return [(st, NONE)]
+    if name == "split_first":
+        c = I.new_cell(st, VInt(8, False, lin=Lin.atom(("byte", v.buf, v.start.key()))))
+        return [(st, mk_some(VTuple((VRef(c, ()), VSlice(v.buf, v.start + 1, v.len - 1)))))]
+    lastpos = v.start + v.len - 1
+    c = I.new_cell(st, VInt(8, False, lin=Lin.atom(("byte", v.buf, lastpos.key()))))
+    if name == "last":
+        return [(st, mk_some(VRef(c, ())))]
+    return [(st, mk_some(VTuple((VRef(c, ()), VSlice(v.buf, v.start, v.len - 1)))))]
+
+
+def _checked_shift(op):
+    def h(I, st, callee, target, args, ctx):
+        a, b = args
+        if not (isinstance(a, VInt) and isinstance(b, VInt)):
+            raise Unanalysable("checked shift of %r by %r" % (a, b))
+        lb = lin_of(st, b)
+        vals = st.lin_set(lb)
+        if not vals.is_single():
+            sa = lb.single_atom()
+            if sa and abs(sa[1]) == 1 and vals.size() <= 64:
+                at, k, c = sa
+                raise NeedSplit(at, [IntSet.of((x - c) * k) for x in vals.values()])
+            raise Unanalysable("checked shift by a symbolic amount")
+        n = vals.single()
+        if n < 0 or n >= a.w:
+            return [(st, NONE)]
+        return [(st, mk_some(I.binop(st, op, a, mk_const(n, 32, False))))]
+    return h
+
+
+for _t in ("u8", "u16", "u32", "u64", "usize", "i8", "i16", "i32", "i64", "isize"):
+    EXT["core:%s::checked_shr" % _t] = _checked_shift("Shr")
+    EXT["core:%s::checked_shl" % _t] = _checked_shift("Shl")
+    CONTRACT["core:%s::checked_shr" % _t] = "total"
+    CONTRACT["core:%s::checked_shl" % _t] = "total"
+
+
+def _bool_cases(I, st, b, what):
+    """[(st', truth)] for a boolean value, splitting when it is undecided"""
+    if not isinstance(b, VBool):
+        raise Unanalysable("%s on %r" % (what, b))
+    d = st.decide(b.cond)
+    if d is not None:
+        return [(st, d)]
+    return [(s, True) for s in st.copy().assume(b.cond, True)] + [(s, False) for s in st.copy().assume(b.cond, False)]
+
+
+@ext("core:Option<T>::filter")
+def h_opt_filter(I, st, callee, target, args, ctx):
+    v, f = args
+    if not (isinstance(v, VAdt) and v.adt == OPTION):
+        raise Unanalysable("Option::filter on %r" % (v,))
+    if v.variant == 0:
+        return [(st, NONE)]
+    out = []
+    c = I.new_cell(st, v.fields[0])
+    for s2, b in I.apply_callable(st, f, [VRef(c, ())], ctx):
+        for s3, truth in _bool_cases(I, s2, b, "Option::filter predicate"):
+            out.append((s3, v if truth else NONE))
+    return out
+
+
+@ext("core:bool::then_some", "core:bool::then")
+def h_bool_then(I, st, callee, target, args, ctx):
+    b, x = args
+    out = []
+    for s2, truth in _bool_cases(I, st, b, "bool::then"):
+        if not truth:
+            out.append((s2, NONE))
+        elif target["def"].endswith("then_some"):
+            out.append((s2, mk_some(x)))
+        else:
+            for s3, v in I.apply_callable(s2, x, [], ctx):
+                out.append((s3, mk_some(v)))
+    return out
+
+
+@ext("core:Option<T>::unwrap_or_else")
+def h_opt_unwrap_or_else(I, st, callee, target, args, ctx):
+    v, f = args
+    if isinstance(v, VAdt) and v.adt == OPTION:
+        if v.variant == 1:
+            return [(st, v.fields[0])]
+        return I.apply_callable(st, f, [], ctx)
+    raise Unanalysable("Option::unwrap_or_else on %r" % (v,))
